@@ -232,6 +232,8 @@ def run(ck: Check):
     n = ck.n(48, 800)
     scs = [conssim.gen_scenario(rng, i) for i in range(n)]
     scs += gate_error_scenarios(500000)
+    rng_old = random.Random(ck.seed * 7121 + 505)
+    scs += [conssim.old_broker(conssim.gen_scenario(rng_old, 700000 + i), rng_old) for i in range(ck.n(18, 200))]
     results = conssim.run_scenarios(scs, timeout=ck.n(900, 3000))
     traces = []
     nbad = 0
